@@ -58,12 +58,14 @@ func (cache *Cache) Add(keyID string, keyValue []byte) {
 	if keyValue == nil {
 		cache.lru.Remove(keyID)
 	} else {
-		cache.lru.Add(keyID, keyValue)
+		// The cache owns its values: they are zeroised on eviction, which must not
+		// reach into a slice that the caller goes on using.
+		cache.lru.Add(keyID, append([]byte(nil), keyValue...))
 	}
 	cache.mutex.Unlock()
 }
 
-// Get value by keyID
+// Get value by keyID. The returned slice is a copy owned by the caller.
 func (cache *Cache) Get(keyID string) ([]byte, bool) {
 	// lru.Cache.Get moves the entry to the front of the recency list, i.e. it writes:
 	// a read lock is not enough here.
@@ -71,7 +73,8 @@ func (cache *Cache) Get(keyID string) ([]byte, bool) {
 	defer cache.mutex.Unlock()
 	value, ok := cache.lru.Get(keyID)
 	if ok {
-		return value.([]byte), ok
+		// The copy is made under the lock: an eviction by a concurrent Add zeroises the stored slice.
+		return append([]byte(nil), value.([]byte)...), ok
 	}
 	return nil, ok
 }
